@@ -2,6 +2,7 @@
 // @id C10.roundtrip.Reaction
 // @engine B
 // @entry vfh_C10_rt_reaction
+// @shared_state_watch
 // @tier Q
 // @reach rt.reread
 // @funcs cxxReaction::dump_raw; cxxReaction::read_raw; cxxNameDouble::read_raw; PHRQ_io::get_line
@@ -12,6 +13,7 @@
 // @id C10.roundtrip.Mix
 // @engine B
 // @entry vfh_C10_rt_mix
+// @shared_state_watch
 // @tier Q
 // @reach rt.reread
 // @funcs cxxMix::dump_raw; cxxMix::read_raw
